@@ -906,8 +906,11 @@ class GeoRemover(K):
                            for i, s in enumerate(c["dom"])]}
 
     def gen(self, rng):
-        d = gen_dom(rng, 1, 3)
-        return {"dom": d, "space": None if rng.integers(2) else int(rng.integers(len(d)))}
+        # mostly several sub-domains with structured ones among them, and every way of naming the
+        # sub-domain (None, 0, 1, ...) equally often: `space=0` must not behave like `space=None`
+        d = gen_dom(rng, 2, 3, kinds=("RG", "RG", "U")) if rng.integers(5) else gen_dom(rng, 1, 1)
+        choices = [None] + list(range(len(d)))
+        return {"dom": d, "space": choices[int(rng.integers(len(choices)))]}
 
     def build(self, ift, c):
         return ift.GeometryRemover(mk_dom(ift, c["dom"]), c["space"])
